@@ -208,6 +208,12 @@ fn main() {
         })
         .count();
     rep.violations.truncate(n_viol.min(rep.violations.len()));
+    // a few watchdog expiries can happen on an overloaded machine; many mean that something the
+    // cases wait for systematically never happens, which the run cannot decide either way
+    let watchdogs: u64 = rep.counters.iter().filter(|(k, _)| k.ends_with("watchdog_inconclusive")).map(|(_, v)| *v).sum();
+    if watchdogs >= 5 {
+        rep.inconclusive.push(format!("{watchdogs} cases ended with a watchdog expiry (neither the awaited event nor quiescence was observed)"));
+    }
     let healthy = engine::write_evidence(&rep, plan.min_nontrivial);
     println!(
         "{} tier={} seed={} evaluations={} distinct_nontrivial={} violations={} known={} wall={:.1}s",
